@@ -190,7 +190,7 @@ def check_classical(ctx, prob, pred, reps, kind, tag="rand"):
     ctx.case(desc, _nontrivial(shape, pred), branch)
     prng = case_rng("c07/classical", list(shape), reps, kind, args["prob"], args["pred"])
     pprob = present_nd(prng, prob, bool_ok=True)
-    ppred = present_nd(prng, pred, allow_dtype=False)      # layout only: PRED_DTYPE_EXCLUSION
+    ppred = present_nd(prng, pred, bool_ok=True)            # int64 / bool predicates included (classical_value repaired in /repo c99a6f6)
     desc["presentation"] = {"prob": describe(pprob), "pred": describe(ppred)}
     guard = Pure(pprob, ppred)
     try:
@@ -234,7 +234,10 @@ def check_classical(ctx, prob, pred, reps, kind, tag="rand"):
         for dt in (np.int64, bool):
             try:
                 v = NonlocalGame(prob.copy(), pred.astype(dt), 1).classical_value()
-                ctx.count(f"classical/int-or-bool-pred/{np.dtype(dt).name}/" + ("same value" if float(v) == float(impl) else "DIFFERENT value (candidate defect, excluded presentation)"))
+                ctx.count(f"classical/int-or-bool-pred/{np.dtype(dt).name}/" + ("same value" if float(v) == float(impl) else "DIFFERENT value"))
+                if float(v) != float(impl):
+                    ctx.violation(f"classical_value depends on the dtype of the predicate: {v!r} with {np.dtype(dt).name}, {impl!r} with float64",
+                                  {"function": "NonlocalGame.classical_value", "args": desc, "dtype": np.dtype(dt).name, "impl": float(v), "theorem": "classicalValueFixed_eq_maxDet"})
             except Exception as e:  # noqa: BLE001
                 ctx.count(f"classical/int-or-bool-pred/{np.dtype(dt).name}/raises {type(e).__name__}")
     if implq is None or abs(implq - spec) > tol:
@@ -440,7 +443,7 @@ def _sdp_worker(task):
     # part of the history (PRED_DTYPE_EXCLUSION)
     prng = case_rng("c07/sdp", task["seed"], task["kind"], task["shape"], task["reps"], task["ops"])
     prob = present_nd(prng, prob, bool_ok=True)
-    pred = present_nd(prng, pred, allow_dtype="classical" not in task["ops"], bool_ok=True)
+    pred = present_nd(prng, pred, bool_ok=True)
     guard = Pure(prob, pred)
     try:
         game = ng.NonlocalGame(prob, pred, task["reps"])
